@@ -15,7 +15,7 @@ import numpy as np
 from hypothesis import strategies as st
 
 from vlib import gen
-from vlib.runner import Checker, Component, Result
+from vlib.runner import exc_sig, Checker, Component, Result
 
 PROPERTY = "C17"
 LEVEL = "exploration"
@@ -257,6 +257,33 @@ def _incompatible(kind, case):
     return c
 
 
+def _simultaneous_iterations(ck, accessor, n, expected, kind, what):
+    """two iterations over the same accessor that are alive at the same time (nested loops,
+    zip of the container with itself) each yield every item, in order"""
+    try:
+        nested = [(i, j, _arrays(kind, x), _arrays(kind, y)) for i, x in enumerate(accessor()) for j, y in enumerate(accessor())]
+        zipped = [(_arrays(kind, x), _arrays(kind, y)) for x, y in zip(accessor(), accessor())]
+        it = iter(accessor())
+        first = next(it, None)
+        list(accessor())  # a complete second iteration in between
+        rest = [] if first is None else [first]
+        while first is not None:  # continue the first iteration by explicit next() calls
+            item = next(it, None)
+            if item is None:
+                break
+            rest.append(item)
+    except Exception as e:  # noqa
+        ck.fail(f"iter({what}):{kind}:simultaneous|{exc_sig(e)}", f"{type(e).__name__}: {e}")
+        return
+    good = len(nested) == n * n and all(_same(x, expected(i)) and _same(y, expected(j)) for i, j, x, y in nested)
+    ck.expect(good, f"iter({what}):{kind}:nested-loops", f"{len(nested)} pairs visited for {n} items")
+    good = len(zipped) == n and all(_same(x, expected(i)) and _same(y, expected(i)) for i, (x, y) in enumerate(zipped))
+    ck.expect(good, f"iter({what}):{kind}:zip-with-itself", f"{len(zipped)} pairs for {n} items")
+    good = len(rest) == n and all(_same(_arrays(kind, x), expected(i)) for i, x in enumerate(rest))
+    ck.expect(good, f"iter({what}):{kind}:interleaved", f"{len(rest)} items for {n}")
+    ck.cls("simultaneous-iterations")
+
+
 def run_case(case) -> list[Result]:
     kind = case["kind"]
     a_case, b_case = case["a"], case["b"]
@@ -431,6 +458,7 @@ def run_case(case) -> list[Result]:
             for i, item in enumerate(lst):
                 good &= _same(_arrays(kind, item), _select_bins(ea, slice(i, i + 1), kind))
         ck.expect(good, f"iter(bins):{kind}:values", f"len {len(lst)} vs {nb}")
+    _simultaneous_iterations(ck, lambda: a.bins, nb, lambda i: _select_bins(ea, slice(i, i + 1), kind), kind, "bins")
     ck.raises(lambda: a.bins[nb], f"bins[]:{kind}:accepts-out-of-range")
 
     # bins commute with sampling
@@ -471,6 +499,7 @@ def run_case(case) -> list[Result]:
                 for i, item in enumerate(lst):
                     good &= _same(_arrays(kind, item), _select_patches(ea, slice(i, i + 1)))
             ck.expect(good, f"iter(patches):{kind}:values", f"len {len(lst)} vs {npatch}")
+        _simultaneous_iterations(ck, lambda: a.patches, npatch, lambda i: _select_patches(ea, slice(i, i + 1)), kind, "patches")
         ck.raises(lambda: a.patches[npatch], f"patches[]:{kind}:accepts-out-of-range")
 
     # ---------------- purity: indexing, sampling, get_array(), comparisons and arithmetic with
